@@ -247,6 +247,14 @@ static void emit(block_t &b, const Stmt &s, const std::map<std::string, var_t> &
     b.callsite(s.k, outs, args);
     break;
   }
+  case Op::INTRINSIC: {
+    std::vector<var_t> outs;
+    std::vector<crab::variable_or_constant<number_t, varname_t>> args;
+    for (size_t i = 0; i < s.v.size(); i++)
+      args.push_back(crab::variable_or_constant<number_t, varname_t>(V(i)));
+    b.intrinsic(s.k, outs, args);
+    break;
+  }
   }
 }
 
